@@ -606,8 +606,9 @@ def c20(tier):
         "C20", tier, ["c20_events", "c20_stats", "c20_procstats", "c20_tallies"],
         "cases: (a) all multisets of <=3 (quick) / <=4 (thorough) events over 2 names x 3 timestamps (tie, no fractional part) x 2 payloads, distributed over 1-3 per-process event files in every way, "
         "written by the real event logger, consolidated by EventsSummary, read back, re-read and re-consolidated; (b) every sample sequence of length 1-4 over {0,1,2,5} through ResourceMonitorAggregator, and per-process statistics of two job processes with every presence mask over <=4 ticks x sample values; "
-        "(c) every result set over {successful, failed(1), failed(2), canceled, missing}^n, n<=4 through JobSubmitter._handle_completion and ResultsSummary. non-trivial: more than one event/sample",
-        E_ASSUMPTIONS)
+        "(c) every result set over {successful, failed(1), failed(2), canceled, missing}^n, n<=4 through JobSubmitter._handle_completion and ResultsSummary; "
+        "(d) system level (mode S): the tallies of results.json after resubmission histories on every 3-job DAG. non-trivial: more than one event/sample",
+        E_ASSUMPTIONS, system_tasks=[t for i, t in enumerate(resub_slice_tasks(["C20R"], tier, "c20")) if i % 2 == 0 or tier == "thorough"])
 
 
 from . import echecks2  # noqa: E402,F401
